@@ -19,6 +19,11 @@ OBLIGATIONS = [
     (P + "device_conservation", "either device, any buffer size, every sequence of sputn/sputc/sync/flush/setbuf/full_buffering: written ++ buffered = input; after close nothing buffered, eof exactly once (also after the extra flush_async_chunk)"),
     (P + "eof_flag_toggles_counterexample", "documented quirk outside the contexts' usage: close; flush; flush announces eof twice"),
     (P + "cache_copy_identical", "copy_buf: bytes passed to the next buffer = copied_data() = bytes written, for every op sequence + close"),
+    (P + "framing_roundtrip_http", "HTTP: from the state set_response_headers prepared, every call sequence of a finalized response: no violation, RFC 7230 client reads exactly one head and body = concat inputs (Content-Length / chunked / until-close)"),
+    (P + "framing_roundtrip_fcgi", "FastCGI: records parse to a STDOUT stream = exactly the header block ++ concat inputs"),
+    (P + "framing_roundtrip_scgi", "SCGI/CGI: header block once, then the inputs"),
+    (P + "client_sees_app_bytes", "composition device -> framing -> connection for every schedule: wire de-frames to one head and body = bytes written"),
+    (P + "client_sees_app_bytes_gzip_cached", "full chain gzip_buf -> copy_buf -> device -> framing -> connection: inflate body = app bytes, cached copy = body sent"),
     (P + "gzip_bookkeeping", "gzip_buf, any deflater/buffer size: deflater inputs in order = app bytes, Z_FINISH exactly once and last, bytes passed on = deflater outputs; inflate hypothesis => body decompresses to app bytes"),
 ]
 
